@@ -427,7 +427,8 @@ func TestGarbage(t *testing.T) {
 				fail("dns.resolver/hang", "a lookup fed malformed responses did not return after the upstream closed and the lookup timeout passed")
 				return
 			}
-			garbledOK := r.err == nil
+			// LookupIP reports a successful lookup without addresses as ErrDomainNoAssociatedIPs
+			garbledOK := r.err == nil || errClass(r.err) == "ErrDomainNoAssociatedIPs"
 			res.Seen(fmt.Sprintf("garbage/ok=%v/dials=%d", garbledOK, len(r.dials)))
 			// later lookups are not poisoned: another name, and the same name if the garbled lookup failed
 			names := []string{"n2"}
